@@ -47,7 +47,7 @@ pub fn domain(prop: &str, small: bool) -> Domain {
         "C09slow" => Domain { name: "C09slow", nclients: (2, 3), good: 1, close_weight: 1, big_to_nonreaders: true, flush: false, steps: 50, ..d },
         "C07pipe" => Domain { name: "C07pipe", nclients: (1, 2), good: 0, close_weight: 1, pipeline: 0.7, respond_weight: 2, eager_poll: 0.35, flush: false, ..d },
         "C10" => Domain { name: "C10", nclients: if small { (4, 6) } else { (11, 13) }, good: 0, close_weight: 5, steps: if small { 70 } else { 140 }, ..d },
-        "C18" => Domain { name: "C18", nclients: (1, if small { 4 } else { 11 }), good: 0, kill: true, close_weight: 1, ..d },
+        "C18" => Domain { name: "C18", nclients: (1, if small { 4 } else { 11 }), good: 0, kill: true, close_weight: 1, setlimit: true, ..d },
         // descriptors travel with any piece of any request; pipelining, malformed input, closes and late answers mixed in
         "C12srv" => Domain { name: "C12srv", nclients: (1, 3), good: 0, close_weight: 2, pipeline: 0.5, respond_weight: 3, fds: 0.5, ..d },
         // the race-only branches: a client closes / half-closes / sends between two sub-steps of one call
